@@ -17,6 +17,8 @@ for c in ROUNDTRIP:
     PROGRAMS.append(dict(program='roundtrip_greedy' if c in GREEDY else 'roundtrip', cls=c, tags=('C01',)))
 for v in FMT:
     PROGRAMS.append(dict(program='roundtrip', cls='FormatField', tags=('C01',), variant=v))
+PROGRAMS.append(dict(program='roundtrip_list', cls='Array', tags=('C01',)))
+PROGRAMS.append(dict(program='roundtrip_list', cls='Sequence', tags=('C01',)))
 for c in CANONICAL:
     PROGRAMS.append(dict(program='canonical', cls=c, tags=('C02',)))
 for v in FMT:
@@ -54,7 +56,23 @@ def _none_domain(eng, st):
     st.assume(t.app('(_ is VNone)', t.BOOL, st.env['obj'].t))
 
 
-DOMAIN = {'Bytes': _bytes_domain, 'GreedyBytes': _bytes_domain, 'Flag': _flag_domain, 'Pass': _none_domain}
+def _list_domain(eng, st):
+    """value domain of Array: list-like sequences (anything with a length that can be enumerated)"""
+    if 'obj' not in st.env:
+        return
+    st.assume(t.app('dyn_sized', t.BOOL, st.env['obj'].t))
+    st.assume(t.app('(_ is VOpq)', t.BOOL, st.env['obj'].t))
+
+
+def _seq_domain(eng, st):
+    """value domain of Sequence: None (every member derives its own value) or a list-like sequence"""
+    if 'obj' not in st.env:
+        return
+    v = st.env['obj'].t
+    st.assume(t.or_(t.app('(_ is VNone)', t.BOOL, v), t.and_(t.app('dyn_sized', t.BOOL, v), t.app('(_ is VOpq)', t.BOOL, v))))
+
+
+DOMAIN = {'Sequence': _seq_domain, 'Array': _list_domain, 'Bytes': _bytes_domain, 'GreedyBytes': _bytes_domain, 'Flag': _flag_domain, 'Pass': _none_domain}
 HYPOTHESES = [
     'C02 only - length and count fields: the field that encoded the parsed length also encodes every smaller non-negative length, in no more bytes',
     'C02 only - the canonical encoding a sub-construct builds for a value it parsed is not longer than the bytes it parsed it from (re-established for every class by an assertion of the canonical program; it does NOT hold for NullTerminated(require=False), see known findings)',
